@@ -6,6 +6,7 @@ import (
 	"reflect"
 	"runtime/debug"
 	"sort"
+	"strconv"
 	"strings"
 	"time"
 
@@ -169,6 +170,16 @@ func RunTwice(c *Case) (first, second *Result, inputChanged string) {
 		inputChanged = "before " + before + " after " + after
 	}
 	rec.Events, rec.Order, rec.OrderPaths, rec.CtxLeak = nil, map[string][]string{}, nil, ""
+	// every other case: the caller hands the first result back to the library (Collect helpers) before
+	// the second use — what the library does with a returned result must not change the schema either
+	if c.ID%2 == 0 {
+		if first.RawMap != nil {
+			z.Issues.CollectMap(first.RawMap)
+		} else if first.RawList != nil {
+			z.Issues.CollectList(first.RawList)
+		}
+		first.RawMap, first.RawList = nil, nil
+	}
 	second = runOn(schema, c, rec, data)
 	return
 }
@@ -231,7 +242,7 @@ func (c *Case) execOpts() (opts []z.ExecOption, restore func()) {
 		if len(parts) == 3 && parts[2] != "" {
 			for _, kv := range strings.Split(parts[2], ",") {
 				k, l, _ := strings.Cut(kv, "=")
-				opts = append(opts, z.WithCtxValue(k, l))
+				opts = append(opts, z.WithCtxValue(k, CtxValOf(l)))
 			}
 		}
 	case strings.HasPrefix(c.Fmt, "i18n:"):
@@ -260,12 +271,12 @@ func runOnOpt(schema z.ZogSchema, c *Case, rec *Recorder, data any, hook bool) (
 		// (a pure function of its id; a key given twice keeps the last value)
 		kvs := c.fmtCtxValues()
 		for _, kv := range c.CtxValues() {
-			opts = append(opts, z.WithCtxValue(kv[0], kv[1]))
+			opts = append(opts, z.WithCtxValue(kv[0], CtxValOf(kv[1])))
 			kvs = append(kvs, kv)
 		}
-		rec.CtxExpect = map[string]string{}
+		rec.CtxExpect = map[string]any{}
 		for _, kv := range kvs {
-			rec.CtxExpect[kv[0]] = kv[1]
+			rec.CtxExpect[kv[0]] = CtxValOf(kv[1])
 		}
 	}
 	if hook {
@@ -441,32 +452,8 @@ func (c *Case) Line(order map[string][]string) string {
 		input = c.Input.Sx()
 	}
 	items := []*sx.Node{sx.I(int64(c.ID)), sx.A(c.Mode), schema, c.Dest.Sx(), input, tag, sx.T("order", ord...), ext.Sx()}
-	switch {
-	case c.Fmt == "exec:en":
-		items = append(items, sx.T("fmt", sx.A("exec"), sx.A("en")))
-	case c.Fmt == "exec:es":
-		items = append(items, sx.T("fmt", sx.A("exec"), sx.A("es")))
-	case strings.HasPrefix(c.Fmt, "i18nh:"):
-		parts := strings.SplitN(c.Fmt, ":", 3)
-		var hist, ctx []*sx.Node
-		for _, k := range strings.Split(parts[1], ",") {
-			if k == "-" {
-				hist = append(hist, sx.A("-"))
-			} else {
-				hist = append(hist, sx.S(k))
-			}
-		}
-		if len(parts) == 3 && parts[2] != "" {
-			for _, kv := range strings.Split(parts[2], ",") {
-				k, l, _ := strings.Cut(kv, "=")
-				ctx = append(ctx, sx.L(sx.S(k), sx.S(l)))
-			}
-		}
-		items = append(items, sx.T("fmt", sx.A("i18nh"), sx.L(hist...), sx.L(ctx...)))
-	case c.Fmt == "i18n:-":
-		items = append(items, sx.T("fmt", sx.A("i18n"), sx.A("-")))
-	case strings.HasPrefix(c.Fmt, "i18n:"):
-		items = append(items, sx.T("fmt", sx.A("i18n"), sx.S(strings.TrimPrefix(c.Fmt, "i18n:"))))
+	if f := c.FmtSx(); f != nil {
+		items = append(items, f)
 	}
 	return sx.T("engine", items...).String()
 }
@@ -530,4 +517,53 @@ func RunBuiltQuiet(schema z.ZogSchema, c *Case) *Result {
 		data = c.Input.Go()
 	}
 	return runOnOpt(schema, c, NewRecorder(), data, false)
+}
+
+// FmtSx: the formatter mode of the case as the model reads it (nil: the global default formatter)
+func (c *Case) FmtSx() *sx.Node {
+	switch {
+	case c.Fmt == "exec:en":
+		return sx.T("fmt", sx.A("exec"), sx.A("en"))
+	case c.Fmt == "exec:es":
+		return sx.T("fmt", sx.A("exec"), sx.A("es"))
+	case strings.HasPrefix(c.Fmt, "i18nh:"):
+		parts := strings.SplitN(c.Fmt, ":", 3)
+		var hist, ctx []*sx.Node
+		for _, k := range strings.Split(parts[1], ",") {
+			if k == "-" {
+				hist = append(hist, sx.A("-"))
+			} else {
+				hist = append(hist, sx.S(k))
+			}
+		}
+		if len(parts) == 3 && parts[2] != "" {
+			for _, kv := range strings.Split(parts[2], ",") {
+				k, l, _ := strings.Cut(kv, "=")
+				if _, isStr := CtxValOf(l).(string); isStr {
+					ctx = append(ctx, sx.L(sx.S(k), sx.S(l)))
+				} else {
+					ctx = append(ctx, sx.L(sx.S(k))) // present, but not a string
+				}
+			}
+		}
+		return sx.T("fmt", sx.A("i18nh"), sx.L(hist...), sx.L(ctx...))
+	case c.Fmt == "i18n:-":
+		return sx.T("fmt", sx.A("i18n"), sx.A("-"))
+	case strings.HasPrefix(c.Fmt, "i18n:"):
+		return sx.T("fmt", sx.A("i18n"), sx.S(strings.TrimPrefix(c.Fmt, "i18n:")))
+	}
+	return nil
+}
+
+// CtxValOf: the Go value of a context-value spec — "~es" a value of a named string type, "#7" an int,
+// anything else the string itself
+func CtxValOf(spec string) any {
+	switch {
+	case strings.HasPrefix(spec, "~"):
+		return namedStr(spec[1:])
+	case strings.HasPrefix(spec, "#"):
+		n, _ := strconv.Atoi(spec[1:])
+		return n
+	}
+	return spec
 }
